@@ -340,4 +340,104 @@ Section Client.
       + inversion 1; subst. split; [discriminate|]. intros (? & ? & ? & _ & _ & E & _). discriminate.
     - inversion 1; subst. split; [discriminate|]. intros (? & ? & ? & E & _). discriminate.
   Qed.
+
+  (* ---------- corollaries used by props/C09.v and props/C04.v ---------- *)
+  Lemma prefix_firstn (a b : bytes) : bytes_eqb a (firstn (length a) b) = true -> exists t, b = a ++ t.
+  Proof.
+    intros E. apply bytes_eqb_eq in E. exists (skipn (length a) b).
+    rewrite E at 1. now rewrite firstn_skipn.
+  Qed.
+
+  Theorem send_ok_complete cf s m wf resp s' e r :
+    step H cf s (OSend m wf resp) = (s', e, r) -> r = ROk ->
+    exists b, sm_enc m = Some b /\ accepted_bytes e = b.
+  Proof.
+    intros Hs Hr. pose proof (send_judged _ _ _ _ _ _ _ _ Hs) as J. subst r. unfold send_ok in J.
+    destruct (sm_enc m) as [b|].
+    - exists b. split; [reflexivity|]. apply andb_prop in J as [_ J]. apply andb_prop in J as [J _]. now apply bytes_eqb_eq.
+    - destruct (accepted_bytes e); discriminate.
+  Qed.
+
+  Theorem send_accepted_prefix cf s m wf resp s' e r b :
+    step H cf s (OSend m wf resp) = (s', e, r) -> sm_enc m = Some b -> exists t, b = accepted_bytes e ++ t.
+  Proof.
+    intros Hs Hb. pose proof (send_judged _ _ _ _ _ _ _ _ Hs) as J. unfold send_ok in J. rewrite Hb in J.
+    apply andb_prop in J as [J _]. now apply prefix_firstn.
+  Qed.
+
+  Theorem send_unencodable_clean cf s m wf resp s' e r :
+    step H cf s (OSend m wf resp) = (s', e, r) -> sm_enc m = None -> accepted_bytes e = [] /\ r = RErr.
+  Proof.
+    intros Hs Hb. pose proof (send_judged _ _ _ _ _ _ _ _ Hs) as J. unfold send_ok in J. rewrite Hb in J.
+    destruct (accepted_bytes e); [|discriminate]. destruct r; try discriminate. auto.
+  Qed.
+
+  (* a write fault (the connection accepts n bytes of the message and fails) is an error *)
+  Theorem send_fault_is_error cf s m n resp s' e r :
+    step H cf s (OSend m (Some n) resp) = (s', e, r) -> r = RErr.
+  Proof.
+    cbn [step]. destruct (s_sess s) as [[c [|]]|]; try (now inversion 1).
+    assert (Hgo : forall chunk, match sm_enc m with
+      | None => (s, [], RErr)
+      | Some e0 => let '(w, ok) := do_write c e0 (Some n) 0 in
+                   if negb ok then (s, w, RErr) else if negb (cf_ack cf) then (s, w, ROk)
+                   else let '(a, r0) := check_ack cf c chunk resp in (s, w ++ a, r0)
+      end = (s', e, r) -> r = RErr).
+    { intros chunk. destruct (sm_enc m); [|now inversion 1]. cbn [do_write negb]. now inversion 1. }
+    destruct (cf_ack cf); [destruct (sm_chunk m) as [[|]|]|]; try (now inversion 1); apply Hgo.
+  Qed.
+
+  Theorem sendraw_judged cf s b wf s' e r :
+    step H cf s (OSendRaw b wf) = (s', e, r) ->
+    (exists t, b = accepted_bytes e ++ t) /\ (r = ROk -> accepted_bytes e = b) /\ (wf <> None -> r = RErr).
+  Proof.
+    cbn [step]. destruct (s_sess s) as [[c [|]]|];
+      try (inversion 1; subst; cbn [accepted_bytes flat_map]; split; [exists b; reflexivity | split; [discriminate | intros; reflexivity]]).
+    unfold do_write. destruct wf as [n|]; inversion 1; subst; cbn [accepted_bytes flat_map]; rewrite app_nil_r.
+    - split; [exists (skipn (N.to_nat n) b); now rewrite firstn_skipn | split; [discriminate | intros; reflexivity]].
+    - split; [exists []; now rewrite app_nil_r | split; [reflexivity | congruence]].
+  Qed.
+
+  (* sends do not change the session: in a run of sends every call sees the same state, so
+     each result is determined by that call's own message and response alone *)
+  Lemma send_keeps_state cf s m wf resp s' e r : step H cf s (OSend m wf resp) = (s', e, r) -> s' = s.
+  Proof.
+    cbn [step]. destruct (s_sess s) as [[c [|]]|]; try (now inversion 1).
+    assert (Hgo : forall chunk, match sm_enc m with
+      | None => (s, [], RErr)
+      | Some e0 => let '(w, ok) := do_write c e0 wf 0 in
+                   if negb ok then (s, w, RErr) else if negb (cf_ack cf) then (s, w, ROk)
+                   else let '(a, r0) := check_ack cf c chunk resp in (s, w ++ a, r0)
+      end = (s', e, r) -> s' = s).
+    { intros chunk. destruct (sm_enc m); [|now inversion 1].
+      destruct (do_write c b wf 0) as [w ok]. destruct (negb ok); [now inversion 1|].
+      destruct (negb (cf_ack cf)); [now inversion 1|].
+      destruct (check_ack cf c chunk resp). now inversion 1. }
+    destruct (cf_ack cf); [destruct (sm_chunk m) as [[|]|]|]; try (now inversion 1); apply Hgo.
+  Qed.
+
+  Definition is_send (o : op) : bool := match o with OSend _ _ _ => true | _ => false end.
+
+  Theorem sends_independent cf s : forall ops, forallb is_send ops = true ->
+    fst (runs H cf s ops) = map (fun o => let '(_, e, r) := step H cf s o in (e, r)) ops /\ snd (runs H cf s ops) = s.
+  Proof.
+    induction ops as [|o ops IH]; cbn [runs forallb map]; [auto|].
+    intros Hall. apply andb_prop in Hall as [Ho Hall].
+    destruct o as [| | | |m wf resp| |]; try discriminate.
+    destruct (step H cf s (OSend m wf resp)) as [[s1 e] x] eqn:Es.
+    pose proof (send_keeps_state _ _ _ _ _ _ _ _ Es). subst s1.
+    destruct (runs H cf s ops) as [l s2] eqn:Er. destruct (IH Hall) as [I1 I2]. cbn [fst snd] in *. subst. auto.
+  Qed.
+
+  (* with a timeout configured, the read deadline is set after the message was written and
+     before the response is awaited *)
+  Theorem send_sets_deadline cf s m resp s' e r c b :
+    cf_ack cf = true -> cf_timeout cf = true -> s_sess s = Some (c, true) ->
+    sm_enc m = Some b -> (exists ch, sm_chunk m = Some ch /\ ch <> []) ->
+    step H cf s (OSend m None resp) = (s', e, r) -> e = [EvWrite c b b 0; EvDeadline c].
+  Proof.
+    intros Ha Ht Hs Hb (ch & Hc & Hne). cbn [step]. rewrite Hs, Ha, Hc, Hb.
+    destruct ch as [|c0 ch]; [contradiction|]. cbn [do_write negb].
+    unfold check_ack. rewrite Ht. destruct (U_ack Stream resp) as [[a rr]|er|]; now inversion 1.
+  Qed.
 End Client.
